@@ -19,6 +19,7 @@ EXPLANATION = (
     "Not decided: int->int narrowing policy, rational/complex conversions, matrix->set (C14)."
     ' (R5) in the reshape dispatch `match (matrix, shape[0], shape[1])` every arm allocates its output with (rows, cols) = (second, third) pattern position.'
     " (R6) Value::convert_to (the scalar table behind option/set/table-column annotations): each arm builds the variant of its target kind from a single `as` cast to that kind's element type."
+    ' (R7) the identity fast path of a matrix annotation (source handed back unchanged) is taken only under guards saying the requested shape list is empty or equal to the source shape and the element kinds are equal.'
 )
 
 ALLOWED = {
@@ -257,3 +258,5 @@ def run_r6(F, rep, avk):
                       "convert_to arm (%s, %s) converts through `%s`: expected the single cast `*%s.borrow() as <element type of %s>`; a detour through another type loses range or precision the target can represent" % (
                           src_[1], tgt[1], render(c[2][0])[:60] if c[2] else "", binder[0], kb), "expanded line %d" % arm[3], sample={"arm": key, "expr": render(c[2][0])[:60] if c[2] else ""})
     rep.floor("C12-R6", "convert_to scalar arms", n, 120)
+    from rules.loopshape import c12_identity_passthrough_guard
+    c12_identity_passthrough_guard(F, rep)
